@@ -384,4 +384,59 @@ theorem asmText_eq_fast (cfg : Cfg) (pc : PCfg) (files : List String) (start : I
   unfold asmText asmTextFast
   simp only [assemble_eq_fast]
 
+theorem emitAll_sorted (cfg : Cfg) (L : Labels) (ps : List Placed) (es : List Emitted)
+    (hg : ∀ p ∈ ps, GoodPlaced cfg p) (h : emitAll cfg L ps = .ok es)
+    (hs : ps.Pairwise fun a b => a.addr ≤ b.addr) : es.Pairwise fun a b => a.addr ≤ b.addr := by
+  have hm := (emitAll_wf cfg L ps es hg h).2
+  have h1 : (ps.map (·.addr)).Pairwise (· ≤ ·) := by rw [List.pairwise_map]; exact hs
+  rw [← hm, List.pairwise_map] at h1
+  exact h1
+
+/-- the emitted lines of any program are sorted by address (the stable sort of the placed lines) -/
+theorem assembleLines_sorted (cfg : Cfg) (files : List (List Stmt)) (es : List Emitted) (L : Labels)
+    (h : assembleLines cfg files = .ok (es, L)) : es.Pairwise fun a b => a.addr ≤ b.addr := by
+  unfold assembleLines at h
+  cases hp : assemblePlaced cfg files with
+  | error e => rw [hp] at h; cases h
+  | ok r =>
+    obtain ⟨sorted, L1⟩ := r
+    rw [hp] at h
+    simp only [bind, Except.bind] at h
+    cases he : emitAll cfg L1 sorted with
+    | error e => rw [he] at h; cases h
+    | ok es' =>
+      rw [he] at h
+      cases h
+      unfold assemblePlaced at hp
+      cases h0 : initLabels cfg with
+      | error e => rw [h0] at hp; cases hp
+      | ok L0 =>
+        rw [h0] at hp
+        simp only [bind, Except.bind] at hp
+        cases hz : initZones cfg.bits cfg.origin cfg.preZones with
+        | error e => rw [hz] at hp; cases hp
+        | ok zs0 =>
+          rw [hz] at hp
+          simp only at hp
+          cases hr : readFile cfg files (files.length + 1) 0 { labels := L0, zones := zs0, used := [], nextLoc := 0, syms := cfg.preSyms } with
+          | error e => rw [hr] at hp; cases hp
+          | ok rr =>
+            obtain ⟨lines, st⟩ := rr
+            rw [hr] at hp
+            simp only at hp
+            cases hf : firstPass cfg lines (st.zones, st.labels) with
+            | error e => rw [hf] at hp; cases hp
+            | ok fr =>
+              obtain ⟨placed, zsf, Lf⟩ := fr
+              rw [hf] at hp
+              simp only [Except.ok.injEq, Prod.mk.injEq] at hp
+              obtain ⟨rfl, rfl⟩ := hp
+              have hgood : ∀ p ∈ sortByAddr (placed ++ predefinedLines cfg), GoodPlaced cfg p := by
+                intro p hp
+                have hm := (sortByAddr_perm' (placed ++ predefinedLines cfg)).mem_iff.mp hp
+                rcases List.mem_append.mp hm with h1 | h2
+                · exact firstPass_good cfg lines _ placed zsf Lf hf p h1
+                · exact predefined_good cfg p h2
+              exact emitAll_sorted cfg _ _ _ hgood he (sortByAddr_sorted' _)
+
 end BV
